@@ -72,8 +72,7 @@ Proof.
   unfold step_rename_space, reject. intros H. destruct p as [|x t]; [inv H; reflexivity|].
   destruct (negb (has_space st (x :: t))); [inv H; reflexivity|].
   destruct (negb (can_add_space st _ new)); [inv H; reflexivity|].
-  destruct (negb (is_valid_name new)); [inv H; reflexivity|].
-  destruct (all_mro_ok _ && all_disjoint _); [discriminate|inv H; reflexivity].
+  destruct (negb (is_valid_name new)); [inv H; reflexivity|discriminate].
 Qed.
 
 Lemma add_bases_noop st s bs r st' : step_add_bases st s bs = (Rejected r, st') -> st' = st.
@@ -124,6 +123,9 @@ Proof.
     destruct (mem_str n sys_names || has_gref st n); inv H; reflexivity.
 Qed.
 
+Lemma set_params_noop st s ps r st' : step_set_params st s ps = (Rejected r, st') -> st' = st.
+Proof. unfold step_set_params, reject. intros H. split_step H. Qed.
+
 (** C11, first clause: whatever the state, an operation that is rejected - for
     whichever reason - returns the state it was applied to *)
 Theorem rejected_noop : forall st o r st', step st o = (Rejected r, st') -> st' = st.
@@ -138,6 +140,7 @@ Proof.
   - eapply remove_bases_noop; eassumption.
   - eapply set_attr_noop; eassumption.
   - eapply del_attr_noop; eassumption.
+  - eapply set_params_noop; eassumption.
 Qed.
 
 (** the two places where the model mutates first and fails afterwards are real:
